@@ -128,6 +128,11 @@ var deanchored = []string{
 	"(*" + modulePath + "/internal/server.Target).isDraining",
 	"(*" + modulePath + "/internal/server.Buffer).discardSpill",
 	"(*" + modulePath + "/internal/server.Router).findOrCreateService",
+	"(*" + modulePath + "/internal/cmd.listCommand).displayResponse",
+	"(*" + modulePath + "/internal/server.RolloutController).splitValue",
+	"(*" + modulePath + "/internal/server.RolloutController).valueInAllowlist",
+	"(*" + modulePath + "/internal/server.RolloutController).valueInRolloutPercentage",
+	"(*" + modulePath + "/internal/server.RolloutController).hashForValue",
 }
 
 // inlineSeq numbers expansions across all rounds of one run (labels and temporaries must stay unique when a later round
@@ -1336,6 +1341,39 @@ func (in *inliner) rewriteList(p *packages.Package, f *ast.File, list []ast.Stmt
 			changed = true
 			continue
 		}
+		// `return L || h(x)`  =>  `if L { return true }; return h(x)` (and `&&` likewise): the helper call on the right of a
+		// short-circuit operator is only evaluated on one branch; written out, it is a plain tail call
+		if rs, ok := s.(*ast.ReturnStmt); ok && len(rs.Results) == 1 {
+			if be, ok := ast.Unparen(rs.Results[0]).(*ast.BinaryExpr); ok && (be.Op == token.LOR || be.Op == token.LAND) && in.containsHelperCall(p, be.Y) {
+				if tv, ok := p.TypesInfo.Types[be]; ok && tv.Type != nil {
+					if bt, isBasic := tv.Type.Underlying().(*types.Basic); isBasic && bt.Info()&types.IsBoolean != 0 {
+						var cond ast.Expr = be.X
+						lit := "true"
+						if be.Op == token.LAND {
+							cond = &ast.UnaryExpr{Op: token.NOT, X: &ast.ParenExpr{X: be.X}}
+							lit = "false"
+						}
+						first := &ast.IfStmt{Cond: cond, Body: &ast.BlockStmt{List: []ast.Stmt{&ast.ReturnStmt{Results: []ast.Expr{ast.NewIdent(lit)}}}}}
+						second := &ast.ReturnStmt{Results: []ast.Expr{be.Y}}
+						sub, _ := in.rewriteList(p, f, []ast.Stmt{first, second})
+						out = append(out, sub...)
+						changed = true
+						continue
+					}
+				}
+			}
+		}
+		// `if A || h(x) { B }` => `if A { B } else { if h(x) { B } }`, `if A && h(x) { B }` => `if A { if h(x) { B } }`: the
+		// control flow the compiler generates for the short-circuit anyway, with the helper call now in a position where it
+		// can be expanded
+		if ifs, ok := s.(*ast.IfStmt); ok && ifs.Init == nil {
+			if repl := in.splitShortCircuitIf(p, ifs); repl != nil {
+				sub, _ := in.rewriteList(p, f, []ast.Stmt{repl})
+				out = append(out, sub...)
+				changed = true
+				continue
+			}
+		}
 		// `if init; cond {}`  =>  `{ init; if cond {} }` when the init statement contains a helper call
 		if ifs, ok := s.(*ast.IfStmt); ok && ifs.Init != nil && in.firstHelperCall(p, ifs.Init) != nil {
 			inner := *ifs
@@ -1711,6 +1749,78 @@ func (in *inliner) firstCall(p *packages.Package, e *ast.Expr) (slot *ast.Expr, 
 	}
 	walk(e, false)
 	return found, cond
+}
+
+// splitShortCircuitIf: see rewriteList. nil when the condition has no helper call on the right of && / ||, or when the
+// part that would have to be written twice cannot be copied (labels, function literals, or simply long).
+func (in *inliner) splitShortCircuitIf(p *packages.Package, ifs *ast.IfStmt) ast.Stmt {
+	be, ok := ast.Unparen(ifs.Cond).(*ast.BinaryExpr)
+	if !ok || (be.Op != token.LOR && be.Op != token.LAND) {
+		return nil
+	}
+	var needs func(b *ast.BinaryExpr) bool
+	needs = func(b *ast.BinaryExpr) bool {
+		if in.containsHelperCall(p, b.Y) {
+			return true
+		}
+		if x, ok := ast.Unparen(b.X).(*ast.BinaryExpr); ok && (x.Op == token.LOR || x.Op == token.LAND) {
+			return needs(x)
+		}
+		return false
+	}
+	if !needs(be) {
+		return nil
+	}
+	copyable := func(n ast.Node) bool {
+		if n == nil {
+			return true
+		}
+		okc := true
+		stmts := 0
+		ast.Inspect(n, func(m ast.Node) bool {
+			switch m.(type) {
+			case *ast.LabeledStmt, *ast.FuncLit:
+				okc = false
+			case ast.Stmt:
+				stmts++
+			}
+			return okc
+		})
+		return okc && stmts <= 12
+	}
+	if be.Op == token.LAND {
+		inner := &ast.IfStmt{Cond: be.Y, Body: ifs.Body, Else: ifs.Else}
+		outer := &ast.IfStmt{Cond: be.X, Body: &ast.BlockStmt{List: []ast.Stmt{inner}}}
+		if ifs.Else != nil {
+			if !copyable(ifs.Else) {
+				return nil
+			}
+			outer.Else = &ast.BlockStmt{List: []ast.Stmt{copyNode(ifs.Else).(ast.Stmt)}}
+		}
+		return outer
+	}
+	if !copyable(ifs.Body) {
+		return nil
+	}
+	second := &ast.IfStmt{Cond: be.Y, Body: copyNode(ifs.Body).(*ast.BlockStmt), Else: ifs.Else}
+	return &ast.IfStmt{Cond: be.X, Body: ifs.Body, Else: &ast.BlockStmt{List: []ast.Stmt{second}}}
+}
+
+// containsHelperCall: e contains a call of an expandable helper (not inside a function literal).
+func (in *inliner) containsHelperCall(p *packages.Package, e ast.Expr) bool {
+	found := false
+	ast.Inspect(e, func(n ast.Node) bool {
+		switch x := n.(type) {
+		case *ast.FuncLit:
+			return false
+		case *ast.CallExpr:
+			if in.shapeOf(p, x) != nil {
+				found = true
+			}
+		}
+		return !found
+	})
+	return found
 }
 
 func (in *inliner) firstHelperCall(p *packages.Package, s ast.Stmt) *ast.CallExpr {
@@ -3067,12 +3177,27 @@ func (in *inliner) remethodise() bool {
 			}
 			bySig = append(bySig, obj)
 		}
+		// (results too, when that singles one out)
+		nmFull := 0
+		for _, m2 := range missing {
+			if m2.pkg == m.pkg && baselineSig[m2.full] == want {
+				nmFull++
+			}
+		}
+		var byFull []*types.Func
+		for _, o := range bySig {
+			if sigString(o) == want {
+				byFull = append(byFull, o)
+			}
+		}
 		var pick *types.Func
 		switch {
 		case len(sameName) == 1:
 			pick = sameName[0]
 		case len(bySig) == 1 && nm == 1:
 			pick = bySig[0]
+		case len(byFull) == 1 && nmFull == 1:
+			pick = byFull[0]
 		}
 		if pick == nil {
 			continue
